@@ -47,7 +47,7 @@ theorem flowRates_eq_map_mult {m : Model α} {b : Backend} (hb : BackendFor m b)
       | (rw [hsp (by rw [hk]; rfl), hMi (by rw [hk]; rfl)]; rfl)
       | (rw [hsp (by rw [hk]; rfl)]; rfl)
 
-theorem multOf_copy (s : Strat α) (M M' : Flow α → α) (f g : Flow α) (hg : g ∈ copies s f)
+theorem multOf_copy (s : Strat α) (M M' : Flow α → α) (f g : Flow α) (hg : g ∈ copiesA s f)
     (hMM : isInfection f.kind = true → M' g = M f) : multOf M' g = multOf M f := by
   unfold multOf
   rw [copies_kind s f g hg]
@@ -66,7 +66,7 @@ theorem rates_agg_of_shape_mult {m m' : Model α} {s : Strat α} {b b' : Backend
     (hn : (s.strata.length : α) ≠ 0) (hstrain : s.kind ≠ .strain) (hage : s.kind = .age → "0" ∈ s.strata)
     (extra : List (Flow α))
     (hcomps : m'.comps = stratifyComps m.comps s)
-    (hflows : m'.flows = m.flows.flatMap (copies s) ++ extra)
+    (hflows : m'.flows = m.flows.flatMap (copiesA s) ++ extra)
     (hextra : ∀ g ∈ extra, IsSiblingFlow m.comps s g)
     (hb : BackendFor m b) (hb' : BackendFor m' b') (hs : sourcedOk m = true)
     (x' : List α) (hx : x'.length = m'.comps.length) (env : Env α) (mults mults' : List α)
@@ -75,14 +75,14 @@ theorem rates_agg_of_shape_mult {m m' : Model α} {s : Strat α} {b b' : Backend
       mults.getD (infPos m i) 1 = M m.flows[i])
     (hM' : ∀ i (hi : i < m'.flows.length), isInfection m'.flows[i].kind = true →
       mults'.getD (infPos m' i) 1 = M' m'.flows[i])
-    (hMM : ∀ f ∈ m.flows, isInfection f.kind = true → ∀ g ∈ copies s f, M' g = M f) :
+    (hMM : ∀ f ∈ m.flows, isInfection f.kind = true → ∀ g ∈ copiesA s f, M' g = M f) :
     agg m.comps s (compRates b' (flowRates b' (m'.flows.map (weightVal env)) x' mults'))
       = compRates b (flowRates b (m.flows.map (weightVal env)) (agg m.comps s x') mults) := by
   have hends := ends_of_backendFor hb
   have hends' := ends_of_backendFor hb'
   have hnd' : m'.comps.Nodup := by
     rw [hcomps]; exact stratifyComps_nodup _ _ ok.fresh ok.nodup ok.strataNodup
-  have hmem' : ∀ g ∈ m'.flows, (∃ f ∈ m.flows, g ∈ copies s f) ∨ g ∈ extra := by
+  have hmem' : ∀ g ∈ m'.flows, (∃ f ∈ m.flows, g ∈ copiesA s f) ∨ g ∈ extra := by
     intro g hg
     rw [hflows, List.mem_append, List.mem_flatMap] at hg
     exact hg
@@ -99,7 +99,7 @@ theorem rates_agg_of_shape_mult {m m' : Model α} {s : Strat α} {b b' : Backend
     compRates_eq_map hb' hnd', compRates_eq_map hb ok.nodup]
   rw [deathTot_agg ok hn hstrain hage extra hcomps hflows hextra (fun f hf => (hends f hf).1) x' hx env]
   have hx2 : x'.length = (stratifyComps m.comps s).length := by rw [← hcomps]; exact hx
-  have hends2 : ∀ g ∈ m.flows.flatMap (copies s) ++ extra,
+  have hends2 : ∀ g ∈ m.flows.flatMap (copiesA s) ++ extra,
       (∀ d, g.src = some d → d ∈ stratifyComps m.comps s) ∧ (∀ d, g.dst = some d → d ∈ stratifyComps m.comps s) := by
     intro g hg
     rw [← hflows] at hg
